@@ -9,6 +9,7 @@ TRUSTED_BASE = [
     "Print Assumptions of every theorem in coq/Properties/C04.v: closed under the global context",
     "hand-written model coq/Model/Rules.v of rules.rs (Rule::matches, RulesEngine::evaluate) and of Core::evaluate_connection_rules",
     "translator tools/gen_tables.py: structural facts of core.rs (canonical peer address, rules before acceptor.accept / before Http3Codec::new)",
+    "hand-written model coq/Model/RulesLoader.v of settings.rs deserialize_rules (TOML items abstracted to string / other; the item under `rule` to tables / array / other / absent), pinned by facts RULES_LOADER_AS_MODELLED and RULES_INLINE_TABLES_READ and exercised by the process-level cases (real binary, rules file on disk, both spellings of the list, fields of the wrong type); toml_edit's parsing itself is library code",
     "IpNet::from_str / IpNet::contains and hex::decode are library code: the model works on parsed fields, the harness renders them to text and the diff covers the text forms",
     "extraction + driver.ml, cross-checked against vm_compute; harness engine c04_eval (public RulesEngine API + verif::conn_rules door)",
 ]
